@@ -92,7 +92,15 @@ def random_case(rng, tier):
         opts['late_output'] = True
     if rng.random() < 0.2:
         opts['cleanup_registers'] = True
-    return {'program': program, 'schedule': schedule, 'opts': common.with_communicator(rng, opts)}
+    case_fault = None
+    if rng.random() < 0.15:
+        # one listener fails in a notification: nothing about the process changes and the OTHER listener is still told
+        opts['second'] = True
+        case_fault = ['listener:' + rng.choice(['finished', 'excepted', 'killed', 'running', 'waiting', 'paused']), 0]
+    case = {'program': program, 'schedule': schedule, 'opts': common.with_communicator(rng, opts)}
+    if case_fault:
+        case['fault'] = case_fault
+    return case
 
 
 def shrink(case):
@@ -108,7 +116,7 @@ def shrink(case):
 
 def run(case):
     result = Result()
-    engine = common.new_engine(case, record_hooks=False)
+    engine = common.new_engine(case, record_hooks=False, fault=case.get('fault'))
     try:
         if not engine.start():
             raise RuntimeError(f'construction failed: {engine.construct_error!r}')
@@ -267,8 +275,11 @@ def _oracle(engine, result, case, drive):
         if got != want:
             result.violate('terminal_notification', f'payload:{state}', f'the {state} notification carried {got!r}, the process '
                                                                         f'reports {want!r}')
-    if engine.opts.get('oneshot'):
-        result.counters['probe:listener_removes_itself_in_terminal_notification'] += 1
+    if engine.opts.get('second') and engine.world.fault_fired is not None:
+        result.counters['probe:listener_failed_in_notification'] += 1
+    if engine.opts.get('oneshot') or engine.opts.get('second'):
+        if engine.opts.get('oneshot'):
+            result.counters['probe:listener_removes_itself_in_terminal_notification'] += 1
         second = [e[2] for e in events if e[0] == 'notify2' and e[2] in ('finished', 'excepted', 'killed')]
         if second != [state]:
             result.violate('terminal_notification', f'second:{state}:{"+".join(second) or "none"}',
